@@ -287,6 +287,15 @@ func (w *world) vestTx(r *vh.RNG, scn, target string, to common.Address, route s
 			inner = []sdk.Msg{vm, send()}
 		}
 		msgs = wrapExec(signer, inner, depth)
+	case "exec-sibling":
+		// a harmless exec (the signer's own send, which needs no grant) listed BEFORE the exec that carries the vesting
+		// message - at the top level or inside the innermost exec
+		harmless := wrapExec(signer, []sdk.Msg{send()}, 1+r.Intn(2))
+		if r.Bool() {
+			msgs = append(harmless, wrapExec(signer, []sdk.Msg{vm}, depth)...)
+		} else {
+			msgs = wrapExec(signer, append(harmless, vm), depth)
+		}
 	default:
 		panic("route " + route)
 	}
@@ -305,7 +314,7 @@ func routeClass(route string, depth int) string {
 }
 
 var topRoutes = []string{"top", "top", "top", "multi:send,vest", "multi:vest,send", "multi:vest,vest2"}
-var execRoutes = []string{"self-exec", "granted-exec", "exec-mixed"}
+var execRoutes = []string{"self-exec", "granted-exec", "exec-mixed", "exec-sibling"}
 
 func pickRoute(r *vh.RNG, execShare int) (string, int) {
 	if r.Intn(100) < execShare {
